@@ -457,7 +457,7 @@ ASSERT_UNORDERED_REINDEX = False   # see ASSUMPTIONS: on the current tree reinde
 @st.composite
 def trim_operator_cases(draw, max_n=6):
     n = draw(st.integers(1, max_n))
-    qs = draw(st.lists(st.integers(0, n - 1), unique=True, min_size=1, max_size=n))      # insertion order = drawn order
+    qs = draw(st.lists(st.integers(0, n - 1), unique=True, min_size=1, max_size=max(1, n - draw(st.integers(0, 2)))))   # insertion order = drawn order
     if draw(st.booleans()):
         qs = sorted(qs)
     trim = [[q, draw(st.integers(0, 1))] for q in qs]
@@ -475,9 +475,10 @@ def check_trim_operator(ctx, case):
     op = S.build_qubit_op(case["op"])
     terms = S.op_terms(case["op"])
     terms0 = dict(op.terms)
-    used = 1 + max([q for t in terms for q, _ in t], default=-1)
-    # n_qubits may be left out only when the operator itself reaches the top qubit (otherwise it cannot be inferred)
-    pass_n = case["pass_n"] or used != n
+    # n_qubits may be left out only when the operator itself reaches the top qubit (otherwise it cannot be inferred;
+    # the function documents count_qubits(qu_op) as the default)
+    from tangelo.toolboxes.operators import count_qubits
+    pass_n = case["pass_n"] or count_qubits(op) != n
     out = trim_trivial_operator(op, trim_states, n if pass_n else None, reindex)
     if list(trim_states.items()) != order0 or dict(op.terms) != terms0:
         raise Fail("trim_trivial_operator modified its arguments", sig="trim-operator:input-mutated")
